@@ -321,7 +321,7 @@ func TestReplayDeterminism(t *testing.T) {
 				v := Recv(ch)
 				*out = append(*out, 100+v)
 			}
-			for _, k := range MapKeys(m, func(k string) string { return k }) {
+			for _, k := range MapKeys(m) {
 				*out = append(*out, m[k]*1000)
 			}
 			WGWait(&wg)
